@@ -381,7 +381,9 @@ theorem stepT_wat {s : State} {i : Nat} {t : Thread} (inv : Inv s) (h : Wat s) (
   · split
     · exact WatX_setPc hx _ (Or.inl rfl)
     · exact stopFinish_wat hx
-  · exact stopFinish_wat hx
+  · split
+    · exact WatX_setPc hx _ (Or.inl rfl)
+    · exact stopFinish_wat hx
   · split
     · exact WatX_setPc hx _ (Or.inl rfl)
     · split
